@@ -268,3 +268,30 @@ Definition init_reads_ok_b (en : enc) : bool :=
   forallb (fun s => negb (pos (u_init (sg_uses s))) ||
                     forallb (fun y => negb (mem y state_syms)) (symbols_in (sg_expr s))) (e_sigs en) &&
   inits_read_earlier [] (s_states (e_sys en)) state_syms.
+
+(** ** second proposed repair (patches/0002): [init_at 0] defines a signal used by init
+    expressions right before the first state whose init expression needs it (instead of all of
+    them before all states), so that the states it reads are already declared.  Later entries
+    and [unroll] are those of [Fixed]. *)
+Definition needs (v : expr) (s : sig) : bool := mem (sg_expr s) (subterms v).
+
+Fixpoint init_states2 (en : enc) (done : list expr) (sts : list state) : list cmd :=
+  match sts with
+  | [] => []
+  | st :: r =>
+      let n := state_name_at st 0 in
+      let t := type_of (st_sym st) in
+      match st_init st with
+      | Some v =>
+          define_signals en 0 (fun s => pos (u_init (sg_uses s)) && needs v s &&
+                                        negb (existsb (fun d => needs d s) done)) ++
+          DefineFun n t (expr_in_step en v 0) :: init_states2 en (v :: done) r
+      | None => DeclareConst n t :: init_states2 en done r
+      end
+  end.
+
+Definition init_at2 (en : enc) : list cmd :=
+  init_states2 en [] (s_states (e_sys en)) ++
+  define_signals en 0 (fun s => (pos (u_other (sg_uses s)) || sg_input s) && (u_init (sg_uses s) =? 0)).
+
+Definition script2 (en : enc) (n : nat) : list cmd := init_at2 en ++ unrolls Fixed en 0 0 n.
